@@ -5,3 +5,4 @@ import FormakVerif.Model.Runtime
 import FormakVerif.Model.Ekf
 import FormakVerif.Model.Validate
 import FormakVerif.Model.Sklearn
+import FormakVerif.Model.Workflow
